@@ -30,7 +30,7 @@ type catchCtx struct {
 	heaps    map[string]bool
 	ghosts   map[string]bool
 	allocs   []string
-	panics   []string // conditions under which some point in the dynamic extent panics
+	panics   []string      // conditions under which some point in the dynamic extent panics
 	snaps    []edgePayload // the state at each of those points
 	nLog     int
 	nDecl    int
